@@ -149,7 +149,52 @@ impl St {
                                     let rem: Vec<u32> = before[lo..hi].iter().map(|m| m.0).collect();
                                     debug_touches_only("the drain", &rem, || d.debug_string())?;
                                 }
-                                _ => {}
+                                Step::Nth(k) | Step::NthBack(k) => {
+                                    let k = *k as usize;
+                                    let front = matches!(st, Step::Nth(_));
+                                    let got = if front { d.nth(k) } else { d.nth_back(k) };
+                                    let exp = if lo + k < hi { Some(if front { before[lo + k].0 } else { before[hi - 1 - k].0 }) } else { None };
+                                    let gid = got.as_ref().map(|t| t.raw_id());
+                                    if let Some(t) = got {
+                                        y.push(t);
+                                    }
+                                    if gid != exp {
+                                        return Err(format!("drain {}({k}) yielded element id {:?}, expected {:?}", if front { "nth" } else { "nth_back" }, gid, exp));
+                                    }
+                                    if lo + k < hi {
+                                        if front {
+                                            lo += k + 1
+                                        } else {
+                                            hi -= k + 1
+                                        }
+                                    } else {
+                                        // past the end: whatever is left is destroyed by the drop at the latest
+                                        drop(d);
+                                        return Ok(());
+                                    }
+                                }
+                                Step::Count => {
+                                    let c = d.count_rest();
+                                    if c != hi - lo {
+                                        return Err(format!("drain count() = {c}, expected {}", hi - lo));
+                                    }
+                                    return Ok(());
+                                }
+                                Step::Last | Step::Fold | Step::RevCollect | Step::Skip(_) | Step::StepBy(_) | Step::Fork => {
+                                    let (v, want): (Vec<Tracked>, Vec<u32>) = match st {
+                                        Step::Last => (d.last_rest().into_iter().collect(), before[lo..hi].iter().rev().take(1).map(|m| m.0).collect()),
+                                        Step::RevCollect => (d.rev_collect_rest(), before[lo..hi].iter().rev().map(|m| m.0).collect()),
+                                        Step::Skip(k) => (d.skip_collect(*k as usize), before[lo..hi].iter().skip(*k as usize).map(|m| m.0).collect()),
+                                        Step::StepBy(k) => (d.step_by_collect(*k as usize), before[lo..hi].iter().step_by(*k as usize + 1).map(|m| m.0).collect()),
+                                        _ => (d.collect_rest(), before[lo..hi].iter().map(|m| m.0).collect()),
+                                    };
+                                    let got: Vec<u32> = v.iter().map(|t| t.raw_id()).collect();
+                                    y.extend(v);
+                                    if got != want {
+                                        return Err(format!("consuming the rest of the drain with {st:?} gave ids {:?}, expected {:?}", got, want));
+                                    }
+                                    return Ok(());
+                                }
                             }
                         }
                         if d.len() != hi - lo {
